@@ -43,7 +43,10 @@ AfterBuildObs(b, obs) ==
 \* which listed property an observation that is not allowed speaks about
 Why(b, obs) ==
   LET P == PayloadOf(obs) IN
-  IF obs.res = "unreadable" THEN "C01 C02 built token is not accepted by the matching parser"
+  IF obs.res = "unreadable" THEN
+     "C01 C02 built token is not accepted by the matching parser"
+       \o (IF "alt" \in DOMAIN obs /\ obs.alt \in {"nofooter", "neither"} THEN "; C05 it is accepted without the footer set on the builder" ELSE "")
+       \o (IF "alt" \in DOMAIN obs /\ obs.alt \in {"noassertion", "neither"} THEN "; C06 it is accepted without the assertion set on the builder" ELSE "")
   ELSE IF obs.res = "ok" /\ ~FreshNonce(obs) THEN "C10 nonce repeated"
   ELSE IF ~PreludeRead(b, obs) THEN "C01 C02 C11 C12 PasetoParser::default() on the built token: " \o obs.pread
   ELSE IF obs.res = "dup" /\ ~MayFail(b) THEN "C17 duplicate-claim error without a repeated key"
